@@ -185,6 +185,11 @@ func lockHookImpl(fr *Frame, st *State, in ssa.Instruction, ct *Contract, recv *
 	if a == nil || a.Kind != AField || a.ST == nil {
 		return
 	}
+	if (kind == "lock" || kind == "rlock") && before && c.dry == 0 {
+		// remember every mutex this function acquires: a blocking channel operation while one of
+		// them is held is a mechanism obligation (blockingCheck)
+		c.noteAcquired(SubRef(a.Ref, a.Idx), a.STName+"."+a.ST.Field(a.Idx).Name())
+	}
 	c.eng.guardIndex()
 	gd := c.eng.guardIdx[a.STName+"."+a.ST.Field(a.Idx).Name()]
 	if gd == nil {
@@ -309,5 +314,44 @@ func (fr *Frame) restoreLocked(pre, st *State) {
 			}
 		}
 		c.trusted["monitor rule: state protected by a lock the current thread holds is unchanged by calls made while holding it"] = true
+	}
+}
+
+type acquiredMutex struct {
+	id   *Term
+	name string
+}
+
+func (c *FnCtx) noteAcquired(id *Term, name string) {
+	for _, m := range c.acquired {
+		if m.id == id {
+			return
+		}
+	}
+	c.acquired = append(c.acquired, acquiredMutex{id, name})
+}
+
+// blockingCheck: mechanism obligation (C12). A plain channel send or receive (outside a select) may
+// park the goroutine for as long as the peer likes; doing so while holding a mutex this function
+// acquired makes every other user of that mutex wait for the peer too (one full mailbox stalls the
+// whole service). Obligation: none of the mutexes acquired in this function is held at the operation.
+func (fr *Frame) blockingCheck(st *State, in ssa.Instruction, what string) {
+	c := fr.c
+	if c.dry > 0 || len(c.acquired) == 0 {
+		return
+	}
+	if fr.contract != nil && fr.contract.Opts["nolockcheck"] == "yes" {
+		return
+	}
+	gw := c.eng.ghostFields["lockw"]
+	gr := c.eng.ghostFields["lockr"]
+	if gw == nil || gr == nil {
+		return
+	}
+	h := Heap{st: st}
+	for _, m := range c.acquired {
+		free := And(Not(h.loadGhost(m.id, gw).X), Eq(h.loadGhost(m.id, gr).X, Num(0)))
+		name := fmt.Sprintf("lock:blocking:%s@%s#%d", m.name, what, c.guardSeq(in, "blocking"+what))
+		c.oblige(fr, st, "lock", name, free, []string{"C12"}, "blocking channel "+what+" while "+m.name+" may be held: "+in.String(), false)
 	}
 }
